@@ -41,6 +41,7 @@ Init == /\ i = 0
 IsDirty(e) == "dirty" \in DOMAIN e /\ e.dirty
 WriterOf(e) == IF "w" \in DOMAIN e THEN e.w ELSE 0
 BufOf(e) == IF "buf" \in DOMAIN e THEN e.buf ELSE 0
+IsOwn(e) == "own" \in DOMAIN e /\ e.own      \* the caller's own *runtime.Buffer, made outside the pool
 
 P(c, k) == IF c THEN <<k>> ELSE <<>>
 
@@ -55,7 +56,7 @@ Fired(e, r, b) ==
                               \* a render buffers each destination once: nested components reuse the buffer, only a block
                               \* rendered into another writer acquires (and flushes, releases) one more
                               \o P(IF WriterOf(e) = 0 THEN Holds(hr, r) ELSE <<r, WriterOf(e)>> \in dest, "OneOwner.SecondAcquire")
-      [] e.ev = "existing" -> P(~UseLegal(hr, r, b), "ExclusiveBuffer.UseNotHeld")                \* GetBuffer: the writer already is a *Buffer
+      [] e.ev = "existing" -> P(~IsOwn(e) /\ ~UseLegal(hr, r, b), "ExclusiveBuffer.UseNotHeld")                \* GetBuffer: the writer already is a *Buffer
       [] e.ev = "flush"    -> P(~UseLegal(hr, r, b), "ExclusiveBuffer.UseAfterRelease")           \* ReleaseBuffer: b.Flush()
       [] e.ev = "release"  -> P(~UseLegal(hr, r, b), "ExclusiveBuffer.ReleaseNotHeld")            \* ReleaseBuffer: bufferPool.Put(b)
       [] e.ev = "get"      -> P(~GetLegal(hb, r, b), "ExclusiveBuffer.BytesAcquireWhileHeld")     \* templ.GetBuffer (bytes.Buffer pool):
